@@ -83,6 +83,76 @@ def run_real(fn):
             return "error " + type(ex).__name__
 
 
+def expected_by_assignment(kind, probe, deb, o, h, f, dO, dH, dF):
+    """what apply_location must return if every step is written once, by the window `use` assigns it to: computed from
+    the REAL window classes and the probe window function only (independent of the Lean model)"""
+    from ibicus.utils import RunningWindowOverYears, day_of_year, month, year
+
+    with warnings.catch_warnings():
+        warnings.simplefilter("ignore")
+        if kind in ("rw", "isimip_rw", "dc"):
+            w = deb.running_window
+            dyO, dyH, dyF = day_of_year(dO), day_of_year(dH), day_of_year(dF)
+            tgt_doy, tgt = (dyO, o) if kind == "dc" else (dyF, f)
+            out = np.full(tgt.size, np.nan)
+            count = np.zeros(tgt.size, dtype=int)
+            for c, idx in w.use(tgt_doy):
+                iO, iH, iF = (w.get_indices_vals_in_window(d, c) for d in (dyO, dyH, dyF))
+                res_w = probe(o[iO], h[iH], f[iF])
+                iT = iO if kind == "dc" else iF
+                out[idx] = res_w[np.isin(iT, idx)]
+                count[idx] += 1
+            return out, count
+        if kind == "isimip_months":
+            mO, mH, mF = month(dO), month(dH), month(dF)
+            out = np.full(f.size, np.nan)
+            count = np.zeros(f.size, dtype=int)
+            for m in range(1, 13):
+                out[mF == m] = probe(o[mO == m], h[mH == m], f[mF == m])
+                count[mF == m] += 1
+            return out, count
+        # year windows
+        yrs = year(dF)
+        w = deb.running_window_over_years_of_cm_future
+        out = np.full(f.size, np.nan)
+        count = np.zeros(f.size, dtype=int)
+        for ya, yw in w.use(yrs):
+            mw, ma = np.isin(yrs, yw), np.isin(yrs, ya)
+            out[ma] = probe(None, None, f[mw])[np.isin(yrs[mw], ya)]
+            count[ma] += 1
+        return out, count
+
+
+PROBE_FN = {
+    "rw": lambda o, h, x: x + o.sum() + 2 * h.sum() + 3 * x.sum(),
+    "isimip_rw": lambda o, h, x: x + o.sum() + 2 * h.sum() + 3 * x.sum(),
+    "isimip_months": lambda o, h, x: x + o.sum() + 2 * h.sum() + 3 * x.sum(),
+    "dc": lambda o, h, x: o + 5 * o.sum() + 2 * h.sum() + 3 * x.sum(),
+    "cdft_years": lambda o, h, x: x + 7 * x.sum(),
+    "qdm_years": lambda o, h, x: x + 7 * x.sum(),
+}
+
+
+def check_assignment(kind, deb, exp, o, h, f, dO, dH, dF, case, problems):
+    """compare the real apply_location (already formatted in `exp`) with the assignment-based expectation"""
+    if exp.startswith("error"):
+        return
+    try:
+        want, count = expected_by_assignment(kind, PROBE_FN[kind], deb, o, h, f, dO, dH, dF)
+    except Exception:  # noqa: BLE001  (the window classes themselves failing is reported elsewhere)
+        return
+    if (count != 1).any():
+        return  # an inexact cover is reported by the cover oracle
+    got = fmt_out(want)
+    if got != exp:
+        a, b = exp[3:].split(","), got[3:].split(",")
+        bad = [i for i, (x, y) in enumerate(zip(a, b)) if x != y]
+        dates = dO if kind == "dc" else dF
+        problems.append((f"{kind}: {len(bad)} time steps hold a value that was not computed by the window they are assigned to "
+                         f"(written by another window, or more than once); first {dates[bad[0]] if bad else '?'}",
+                         {"what": "apply_location-assignment/" + kind, **case}))
+
+
 def skeleton_cases(rng, n, tier, res, problems):
     """real apply_location of the probe debiasers vs Model.Skeleton (driver DrvWindows)"""
     from ibicus.utils import day_of_year, month, year
@@ -140,6 +210,7 @@ def skeleton_cases(rng, n, tier, res, problems):
             YLn, YSn = YL + (YL % 2 == 0), YS + (YS % 2 == 0)
             lines.append(f"applyyears {YLn} {YSn} {C.ilist(year(dF))} {C.ilist(f)}")
         expect.append(("skeleton:" + kind, case, exp))
+        check_assignment(kind, deb, exp, o, h, f, dO, dH, dF, case, problems)
         if "none" in exp and not exp.startswith("error"):
             problems.append((f"{kind}: real apply_location left {exp.count('none')} time steps unassigned (NaN under the hook)",
                              {"what": "apply_location/" + kind, **case}))
